@@ -223,7 +223,8 @@ class Program:
                     tree = ast.parse(src, filename=str(p))
                 except SyntaxError as e:
                     raise AnalysisError(f"unit {key} does not parse: {e}")
-            self.modules[name] = Module(name, p, src, tree, primary=True)
+            from .desugar import desugar
+            self.modules[name] = Module(name, p, src, desugar(tree), primary=True)
             self.units.append(key)
 
     # ---------------------------------------------------------------- lookup
@@ -344,6 +345,12 @@ class Program:
         q = self.chase(qual)
         mod, _, name = q.rpartition(".")
         m = self.modules.get(mod)
+        if m is None and mod.rpartition(".")[0] in self.modules:
+            # Class.MEMBER of a package IntEnum: the member IS its integer value (compares, indexes and converts like it)
+            members = self.int_enum_members(mod)
+            if members is not None and name in members:
+                cache[qual] = (True, members[name])
+                return cache[qual]
         if m is not None and name in m.constants and name not in self.vocabulary() and not name.startswith("__"):
             if "__attr_stores__" not in cache:
                 cache["__attr_stores__"] = {n.attr for mm in self.modules.values() for n in ast.walk(mm.tree)
@@ -351,6 +358,34 @@ class Program:
             if name not in cache["__attr_stores__"]:
                 res = (True, m.constants[name])
         cache[qual] = res
+        return res
+
+    def int_enum_members(self, class_qual: str) -> dict[str, int] | None:
+        """{member: value} of a package class derived from enum.IntEnum whose members are integer literals (None for anything else)."""
+        cache = self.__dict__.setdefault("_enum_cache", {})
+        if class_qual in cache:
+            return cache[class_qual]
+        res = None
+        mod, _, cname = class_qual.rpartition(".")
+        m = self.modules.get(mod)
+        d = m.defs.get(cname) if m is not None else None
+        if isinstance(d, ast.ClassDef) and any(self.resolve(m, b) in ("enum.IntEnum",) for b in d.bases) and cname not in self.vocabulary():
+            out: dict[str, int] = {}
+            ok = True
+            for st in d.body:
+                if isinstance(st, ast.Assign) and len(st.targets) == 1 and isinstance(st.targets[0], ast.Name):
+                    try:
+                        v = const_value(st.value)
+                    except ValueError:
+                        ok = False
+                        break
+                    if type(v) is not int:
+                        ok = False
+                        break
+                    out[st.targets[0].id] = v
+            if ok and out:
+                res = out
+        cache[class_qual] = res
         return res
 
     def namedtuple_fields(self, qual: str | None) -> list[str] | None:
@@ -367,6 +402,18 @@ class Program:
         d = m.defs.get(name) if m is not None else None
         if isinstance(d, ast.ClassDef) and any(self.resolve(m, b) in ("typing.NamedTuple", "typing_extensions.NamedTuple") for b in d.bases):
             res = [st.target.id for st in d.body if isinstance(st, ast.AnnAssign) and isinstance(st.target, ast.Name)]
+        elif isinstance(d, ast.ClassDef) and not d.bases and not d.keywords:
+            # a FROZEN dataclass without a hand-written constructor is a record of its fields in declaration order, like a NamedTuple
+            frozen = False
+            for dec in d.decorator_list:
+                if isinstance(dec, ast.Call) and self.resolve(m, dec.func) == "dataclasses.dataclass" \
+                        and any(k.arg == "frozen" and isinstance(k.value, ast.Constant) and k.value.value is True for k in dec.keywords):
+                    frozen = True
+            own = {st.name for st in d.body if isinstance(st, ast.FunctionDef)}
+            if frozen and not own & {"__init__", "__post_init__", "__new__", "__getattr__", "__getattribute__"}:
+                fields = [st for st in d.body if isinstance(st, ast.AnnAssign) and isinstance(st.target, ast.Name)]
+                if fields and all(st.value is None for st in fields) and not any("ClassVar" in ast.unparse(st.annotation) for st in fields):
+                    res = [st.target.id for st in fields]
         cache[qual] = res
         return res
 
@@ -383,17 +430,33 @@ class Program:
                 return None
         return self.namedtuple_fields(self.resolve(r.module, ann)) if isinstance(ann, (ast.Name, ast.Attribute)) else None
 
-    def inlinable(self, ref: "FuncRef") -> bool:
+    def returned_record_class(self, func_qual: str) -> str | None:
+        """Qualified name of the record class (NamedTuple / frozen dataclass) a package function is annotated to return."""
+        r = self.find_func(func_qual)
+        if r is None or r.node.returns is None:
+            return None
+        ann = r.node.returns
+        if isinstance(ann, ast.Constant) and isinstance(ann.value, str):
+            try:
+                ann = ast.parse(ann.value, mode="eval").body
+            except SyntaxError:
+                return None
+        if not isinstance(ann, (ast.Name, ast.Attribute)):
+            return None
+        q = self.resolve(r.module, ann)
+        return self.chase(q) if q and self.namedtuple_fields(q) is not None else None
+
+    def inlinable(self, ref: "FuncRef", allow_decorated: bool = False) -> bool:
         """A package function that NO rule knows by name (its name occurs nowhere in the rule sources), is not a generator and is short:
         the term layer reads such helpers through.  The vocabulary is computed once from the text of icgsa/rules and icgsa/bounds_domain."""
         cache = self.__dict__.setdefault("_inl_cache", {})
-        if ref.qual in cache:
-            return cache[ref.qual]
+        if (ref.qual, allow_decorated) in cache:
+            return cache[(ref.qual, allow_decorated)]
         n = ref.node
-        ok = n.name not in self.vocabulary() and not n.name.startswith("__") and not n.decorator_list and \
+        ok = n.name not in self.vocabulary() and not n.name.startswith("__") and (allow_decorated or not n.decorator_list) and \
             not any(isinstance(x, (ast.Yield, ast.YieldFrom, ast.Global, ast.Nonlocal, ast.AsyncFunctionDef, ast.ClassDef, ast.Lambda and ast.FunctionDef)) for x in ast.walk(n) if x is not n) \
             and sum(1 for x in ast.walk(n) if isinstance(x, ast.stmt)) <= 25
-        cache[ref.qual] = ok
+        cache[(ref.qual, allow_decorated)] = ok
         return ok
 
     def all_functions(self) -> Iterator[FuncRef]:
@@ -668,7 +731,7 @@ def _table_named(name: str, env: dict[str, object]) -> "list[RegistryEntry] | No
         return None
     v = m.assigns.get(name)
     busy = env.get("__busy__") or ()
-    if v is None or name in busy or not isinstance(v, (ast.Dict, ast.DictComp, ast.Call)):
+    if v is None or name in busy or not isinstance(v, (ast.Dict, ast.DictComp, ast.Call, ast.BinOp)):
         return None
     stores = sum(1 for n in ast.walk(m.tree) if isinstance(n, ast.Name) and n.id == name and isinstance(n.ctx, (ast.Store, ast.Del)))
     touched = any(isinstance(n, ast.Subscript) and isinstance(n.ctx, (ast.Store, ast.Del)) and isinstance(n.value, ast.Name) and n.value.id == name
@@ -794,6 +857,13 @@ def expand_dict(expr: ast.expr, module: Module, env: dict[str, object] | None = 
     env = dict(env or {})
     env.setdefault("__module__", module)
     out: list[RegistryEntry] = []
+    # {..} | {..}: the union of two tables, the right one winning on equal keys (dict semantics)
+    if isinstance(expr, ast.BinOp) and isinstance(expr.op, ast.BitOr):
+        merged: list[RegistryEntry] = []
+        for part in (expr.left, expr.right):
+            for e in expand_dict(part, module, env):
+                _put(merged, e)
+        return merged
     # a table named earlier (local of a table helper / module-level display), possibly copied: d, dict(d), d.copy()
     inner = expr
     if isinstance(inner, ast.Call) and isinstance(inner.func, ast.Name) and inner.func.id == "dict" and len(inner.args) == 1 and not inner.keywords \
